@@ -2,6 +2,7 @@ package main
 
 import (
 	"fmt"
+	"go/token"
 	"go/types"
 	"sort"
 	"strings"
@@ -98,6 +99,24 @@ func (p *Program) encodeUnit(c *Contract) *UnitResult {
 		}
 		f.vals[fv] = n
 		f.params["fv_"+fv.Name()] = CVal{S: n, T: fv.Type()}
+		// a captured variable that its function assigns exactly once (a parameter, a local initialised once) and that
+		// the literal itself never assigns is a constant while the literal runs: its cell is modelled as storage
+		// private to this unit, which no callee and no havoc can touch
+		if pt, ok := fv.Type().(*types.Pointer); ok && assignedOnce(fn, fv) {
+			switch pt.Elem().Underlying().(type) {
+			case *types.Struct, *types.Array:
+			default:
+				name := "L_fv_" + sanitize(fv.Name())
+				f.places[fv] = &Place{kind: "global", comp: name, typ: pt.Elem()}
+				e.comp(st0, name, e.sortOf(pt.Elem()))
+				cur := e.comp(st0, name, e.sortOf(pt.Elem()))
+				if fact := e.typeFact(cur, pt.Elem(), st0); fact != "true" {
+					e.assume("true", fact)
+				}
+				// in contracts: cap_<name> is the (constant) value of the captured variable
+				f.params["cap_"+fv.Name()] = CVal{S: cur, T: pt.Elem()}
+			}
+		}
 	}
 	// a package initialiser is verified for its first (only effective) run
 	if fn.Synthetic != "" && fn.Name() == "init" && fn.Pkg != nil {
@@ -351,3 +370,70 @@ func flatSort(s string) bool {
 
 var _ = types.Typ
 var _ *ssa.Function
+
+// assignedOnce: the variable captured as free variable fv of literal fn is stored to at most once in the enclosing
+// function, never in a literal, and its address is used for nothing but loads, that store and captures.
+func assignedOnce(fn *ssa.Function, fv *ssa.FreeVar) bool {
+	parent := fn.Parent()
+	if parent == nil {
+		return false
+	}
+	idx := -1
+	for i, v := range fn.FreeVars {
+		if v == fv {
+			idx = i
+		}
+	}
+	var cell ssa.Value
+	for _, b := range parent.Blocks {
+		for _, in := range b.Instrs {
+			if mc, ok := in.(*ssa.MakeClosure); ok && mc.Fn == fn && idx >= 0 && idx < len(mc.Bindings) {
+				cell = mc.Bindings[idx]
+			}
+		}
+	}
+	a, ok := cell.(*ssa.Alloc)
+	if !ok || a.Referrers() == nil {
+		return false
+	}
+	stores := 0
+	for _, r := range *a.Referrers() {
+		switch x := r.(type) {
+		case *ssa.DebugRef:
+		case *ssa.UnOp:
+			if x.Op != token.MUL {
+				return false
+			}
+		case *ssa.Store:
+			if x.Addr != a || x.Val == a {
+				return false
+			}
+			stores++
+		case *ssa.MakeClosure:
+			// every literal capturing the cell must only load from it
+			lit, _ := x.Fn.(*ssa.Function)
+			if lit == nil {
+				return false
+			}
+			for j, bnd := range x.Bindings {
+				if bnd != a || j >= len(lit.FreeVars) || lit.FreeVars[j].Referrers() == nil {
+					continue
+				}
+				for _, fr := range *lit.FreeVars[j].Referrers() {
+					switch y := fr.(type) {
+					case *ssa.DebugRef:
+					case *ssa.UnOp:
+						if y.Op != token.MUL {
+							return false
+						}
+					default:
+						return false
+					}
+				}
+			}
+		default:
+			return false
+		}
+	}
+	return stores <= 1
+}
